@@ -37,7 +37,7 @@ def check_probe_agreement(P, ctx, rule='C17.probe-agreement'):
             ctx.check(probe.stop_set(F) == probe.stop_set(ref), rule, f + ':stop', s,
                       'a lookup gives up exactly at an empty slot or when its distance exceeds the resident\'s probe distance, as in %s' % refname,
                       ['here: %s' % sorted(probe.stop_set(F)), '%s: %s' % (refname, sorted(probe.stop_set(ref)))])
-            hits = [ir.fmt(c) for n, c in F.conds if ir.fmt(c) == '(arg0->entries[I].ptr == arg1)']
+            hits = [ir.fmt(c) for n, c in F.conds if ir.fmt(c) in ('(arg0->entries[I].ptr == arg1)', '(arg0->entries[I].ptr != arg1)')]
             ctx.check(len(hits) == 1, rule, f + ':hit', s, 'the hit test compares the resident pointer of the probed slot with the sought pointer')
     # insertion specifics
     F = fr[INSERT]
@@ -51,7 +51,8 @@ def check_probe_agreement(P, ctx, rule='C17.probe-agreement'):
         m = dict(zip(fields, ent[0]['init'][1]))
         hv = ir.top_nocast(m['hash'])
         defs = util.single_defs(F.fn)
-        ok = hv[0] == 'local' and hv[2] in defs and ir.fmt(F.rc(defs[hv[2]])) in ('(1 + I)',)
+        hexp = defs[hv[2]] if (hv[0] == 'local' and hv[2] in defs) else m['hash']
+        ok = ir.fmt(F.rc(hexp)) in ('(1 + I)',)
         # and that definition is evaluated before the loop, right after the start assignment
     ctx.check(ok, rule, INSERT + ':stored-hash', s, 'a new entry stores home slot + 1 as its hash (0 means empty), taken from the starting index before probing')
     disp = [(n, c) for n, c in F.conds if ir.fmt(c) in ('(P <= J)', '(P < J)')]
